@@ -1303,6 +1303,14 @@ func main() {
 			var c MintJS
 			hlib.ReadReplayCase(f.Replay, &c)
 			runMint(c, cw, rep)
+		case "origin":
+			var c OriginJS
+			hlib.ReadReplayCase(f.Replay, &c)
+			runOrigin(c, cw, rep)
+		case "redeem":
+			var c RedeemJS
+			hlib.ReadReplayCase(f.Replay, &c)
+			runRedeemConv(c, f.Out, cw, rep)
 		case "reprice":
 			var c RepriceJS
 			hlib.ReadReplayCase(f.Replay, &c)
@@ -1362,6 +1370,19 @@ func main() {
 		if c.Label == "revert-behind-whale" {
 			rep.Sample(c)
 		}
+	}
+
+	// ---- corpus: origin side (real EVM, frames of every call kind) and redemption of converted Quai ----
+	for i, c := range corpusOrigin() {
+		c.ID = next()
+		runOrigin(c, cw, rep)
+		if i == 2 {
+			rep.Sample(c)
+		}
+	}
+	for _, c := range corpusRedeem() {
+		c.ID, c.Kind = next(), "redeem"
+		runRedeemConv(c, f.Out, cw, rep)
 	}
 
 	// ---- corpus: destination mint ----
@@ -1533,5 +1554,14 @@ func main() {
 			v = new(big.Int).SetBytes(r.Bytes(12 + r.Intn(4))) // around and beyond the uint64 guard
 		}
 		runDen(DenJS{ID: next(), Kind: "denoms", V: v.String()}, cw, rep)
+	}
+	// ---- random: origin side and redemption (after everything else: the streams of the older kinds stay as they were) ----
+	for i := 0; i < f.N+40; i++ {
+		r := rng.Fork()
+		runOrigin(genOrigin(r, next()), cw, rep)
+	}
+	for i := 0; i < f.N/4+8; i++ {
+		r := rng.Fork()
+		runRedeemConv(genRedeem(r, next()), f.Out, cw, rep)
 	}
 }
